@@ -16,6 +16,61 @@ func (ex *Exec) specialExtern(st *State, call *ast.CallExpr, key string, callee 
 		ex.assumedExt[key+" (permutation, sorted w.r.t. the comparator"+map[bool]string{true: ", stable", false: ""}[key == "sort.SliceStable"]+")"] = true
 		ex.sortSlice(st, call, args, key == "sort.SliceStable")
 		return nil, true
+	case "sort.Strings", "sort.Ints":
+		// in-place sort: the new contents are a permutation of the old ones (sortedness is not needed
+		// by any obligation and is therefore not stated)
+		ex.assumedExt[key+" (in place; every new element is an old element of the same slice)"] = true
+		ex.callSeq++
+		sl := args[0]
+		p := sliceParts(sl)
+		et := elemType(sl.T)
+		c0 := flatten(et)[0]
+		name, h := st.elemHeap(et, c0)
+		inner := Select(h, p.arr)
+		nw := Fresh("sorted", inner.sort)
+		piN := fmt.Sprintf("gf$sortperm.c%d", ex.callSeq)
+		DeclareFun(piN, []Sort{SInt}, SInt)
+		q := BVar("q", SInt)
+		piq := App(piN, SInt, q)
+		inW := And(Le(p.off, q), Lt(q, Add(p.off, p.len)))
+		st.assume(Forall([]*Term{q}, Implies(inW, And(Le(p.off, piq), Lt(piq, Add(p.off, p.len)), Eq(Select(nw, q), Select(inner, piq)))), []*Term{Select(nw, q)}))
+		m := BVar("m", SInt)
+		st.assume(Forall([]*Term{m}, Implies(Or(Lt(m, p.off), Ge(m, Add(p.off, p.len))), Eq(Select(nw, m), Select(inner, m))), []*Term{Select(nw, m)}))
+		st.heapSet(name, Store(h, p.arr, nw))
+		ex.mutCount++
+		return nil, true
+	case "astikit.BiMap.Get", "astikit.BiMap.GetInverse":
+		sel, ok := unparen(call.Fun).(*ast.SelectorExpr)
+		if !ok {
+			return nil, false
+		}
+		sig := callee.Type().(*types.Signature)
+		vs := ex.havocResults(st, sig, "bimap")
+		if f, okf := ex.bimapReceiverFacts(sel.X); okf {
+			t := f.valT
+			if key == "astikit.BiMap.GetInverse" {
+				t = f.keyT
+			}
+			if t != nil && len(vs) == 2 {
+				// table fact from the initialiser: every stored value on this side has this dynamic type
+				ex.assumedExt[key+" on a package-level table (table fact from its initialiser: uniform dynamic type "+t.String()+")"] = true
+				st.assume(Implies(vs[1].C[0], Eq(vs[0].C[0], typeTag(t))))
+			}
+		} else {
+			ex.assumedExt[key+" (total; result type unconstrained)"] = true
+		}
+		return vs, true
+	case "regexp.Regexp.FindStringSubmatch", "regexp.Regexp.FindStringSubmatchIndex", "regexp.Regexp.FindStringIndex",
+		"regexp.Regexp.FindAllStringSubmatchIndex", "regexp.Regexp.FindAllStringIndex", "regexp.Regexp.FindAllStringSubmatch":
+		sel, ok := unparen(call.Fun).(*ast.SelectorExpr)
+		if !ok {
+			return nil, false
+		}
+		f, okf := ex.regexFactsOf(sel.X)
+		if !okf {
+			return nil, false
+		}
+		return ex.regexpFind(st, call, key, callee, f, args), true
 	case "bytes.IndexAny":
 		// IndexAny(s, chars) with a constant chars: least index of a byte of s that is in chars, or -1
 		tv, okc := ex.P.Info.Types[call.Args[1]]
@@ -179,4 +234,81 @@ func (ex *Exec) sortSlice(st *State, call *ast.CallExpr, args []Val, stable bool
 	gv := &GhostInst{Name: pinvN, Params: []Sort{SInt}, Ret: SInt, RetT: tInt}
 	st.setCallGhost("sort$pi", gi)
 	st.setCallGhost("sort$pinv", gv)
+}
+
+// regexpFind: results of the Find* family for a package-level regexp whose group structure is a
+// table fact computed from its pattern (number of groups, groups that take part in every match).
+func (ex *Exec) regexpFind(st *State, call *ast.CallExpr, key string, callee *types.Func, f regexFact, args []Val) []Val {
+	sig := callee.Type().(*types.Signature)
+	rt := sig.Results().At(0).Type()
+	ex.assumedExt[key+" on a package-level regexp (result shape from the pattern: group count, always-participating groups, ordered non-overlapping matches)"] = true
+	s := args[0].term()
+	slen := StrLen(s)
+	ngroups := int64(f.n + 1)
+	res := freshVal("re", rt)
+	st.assumeAll(typeFacts(res))
+	st.assumeAll(ex.allocFacts(st, res))
+	p := sliceParts(res)
+	st.assume(Implies(Eq(p.arr, IntLit(0)), Eq(p.len, IntLit(0))))
+	intT := types.Typ[types.Int]
+	_, hInt := st.elemHeap(intT, flatten(intT)[0])
+	// constraints on one match given as an []int index vector (arr, off, len)
+	matchFacts := func(arr, off, ln *Term) *Term {
+		var cs []*Term
+		cs = append(cs, Eq(ln, IntLit(2*ngroups)), Neq(arr, IntLit(0)))
+		at := func(k int64) *Term { return Select(Select(hInt, arr), Add(off, IntLit(k))) }
+		for g := int64(0); g < ngroups; g++ {
+			lo, hi := at(2*g), at(2*g+1)
+			valid := And(Le(IntLit(0), lo), Le(lo, hi), Le(hi, slen), Le(at(0), lo), Le(hi, at(1)))
+			if f.always[g] {
+				cs = append(cs, valid)
+			} else {
+				cs = append(cs, Or(And(Eq(lo, IntLit(-1)), Eq(hi, IntLit(-1))), valid))
+			}
+		}
+		return And(cs...)
+	}
+	switch {
+	case key == "regexp.Regexp.FindStringSubmatch":
+		// nil or 1+n strings
+		st.assume(Or(Eq(p.len, IntLit(0)), Eq(p.len, IntLit(ngroups))))
+		st.assume(Implies(Neq(p.len, IntLit(0)), Neq(p.arr, IntLit(0))))
+	case key == "regexp.Regexp.FindStringSubmatchIndex" || key == "regexp.Regexp.FindStringIndex":
+		if key == "regexp.Regexp.FindStringIndex" {
+			ngroups = 1
+		}
+		st.assume(Or(And(Eq(p.arr, IntLit(0)), Eq(p.len, IntLit(0))), matchFacts(p.arr, p.off, p.len)))
+	case key == "regexp.Regexp.FindAllStringSubmatch":
+		st.assume(Ge(p.len, IntLit(0)))
+		strSl := elemType(rt)
+		cs := flatten(strSl)
+		_, hLen := st.elemHeap(strSl, cs[2])
+		k := BVar("k", SInt)
+		sel := Select(Select(hLen, p.arr), k)
+		st.assume(Forall([]*Term{k}, Implies(And(Le(p.off, k), Lt(k, Add(p.off, p.len))), Eq(sel, IntLit(ngroups))), []*Term{sel}))
+	default: // FindAllStringSubmatchIndex, FindAllStringIndex: [][]int
+		if key == "regexp.Regexp.FindAllStringIndex" {
+			ngroups = 1
+		}
+		inner := elemType(rt)
+		cs := flatten(inner)
+		_, hArr := st.elemHeap(inner, cs[0])
+		_, hOff := st.elemHeap(inner, cs[1])
+		_, hLen := st.elemHeap(inner, cs[2])
+		k := BVar("k", SInt)
+		a := Select(Select(hArr, p.arr), k)
+		o := Select(Select(hOff, p.arr), k)
+		l := Select(Select(hLen, p.arr), k)
+		st.assume(Forall([]*Term{k}, Implies(And(Le(p.off, k), Lt(k, Add(p.off, p.len))), matchFacts(a, o, l)), []*Term{a}, []*Term{l}))
+		// successive matches do not overlap and are in increasing order
+		k2 := BVar("k", SInt)
+		a1 := Select(Select(hArr, p.arr), k2)
+		o1 := Select(Select(hOff, p.arr), k2)
+		a2 := Select(Select(hArr, p.arr), Add(k2, IntLit(1)))
+		o2 := Select(Select(hOff, p.arr), Add(k2, IntLit(1)))
+		end1 := Select(Select(hInt, a1), Add(o1, IntLit(1)))
+		start2 := Select(Select(hInt, a2), o2)
+		st.assume(Forall([]*Term{k2}, Implies(And(Le(p.off, k2), Lt(Add(k2, IntLit(1)), Add(p.off, p.len))), Le(end1, start2)), []*Term{a1}))
+	}
+	return []Val{res}
 }
